@@ -91,11 +91,13 @@ func newSys(backoff time.Duration, initial []int) *sys {
 func (s *sys) upsert(i, w int) error {
 	s.current = i
 	var err error
+	u := su(i)
 	if w < 0 {
-		err = s.rb.UpsertServer(su(i))
+		err = s.rb.UpsertServer(u)
 	} else {
-		err = s.rb.UpsertServer(su(i), roundrobin.Weight(w))
+		err = s.rb.UpsertServer(u, roundrobin.Weight(w))
 	}
+	lib.ReuseURL(u) // the caller's value, free to be reused once the call has returned
 	s.current = -1
 	if err == nil {
 		if w >= 0 {
@@ -109,7 +111,9 @@ func (s *sys) upsert(i, w int) error {
 }
 
 func (s *sys) remove(i int) error {
-	err := s.rb.RemoveServer(su(i))
+	u := su(i)
+	err := s.rb.RemoveServer(u)
+	lib.ReuseURL(u)
 	if err == nil {
 		s.configured[i] = 0
 		s.meters[i] = nil
